@@ -148,4 +148,13 @@ CLAIMS["C14"] = dict(
     note=(TRUST + "Not decided: the compression rounds' dataflow (covered by the suite's vectors: any slip avalanches), SSE2 == portable SipHash beyond the tail assembly, 32-bit size parameter overflow for messages >= 4 GiB."),
 )
 
+CLAIMS["C08"] = dict(
+    level="other",
+    technique="static analysis: decision tables of the tie-break comparators, orientation/source rules of the skew-correction queues and edge scans, dominating index-guard rule, structural check of the stable middle decision, twin agreement (normalised decision sets) of the partition and selection copies",
+    text=("Thin by nature - the halving refinement and the returned ranks are numeric. Decided: LEXI-TABLE (x4), PQ-ORIENT, EDGE-TIEBREAK, INDEX-GUARD (32 element accesses), "
+          "MIDDLE-LEXI (found and fixed: partition split runs of equal elements by key only, violating the lower-sequence-first clause on 45808 of 411879 small inputs), "
+          "TWIN-AGREE between multisequence_partition and multisequence_selection (any one-sided change of a guard in the duplicated refinement is reported)."),
+    note=(TRUST + "Not decided: exactness of the returned rank, left <= right, selection's value/offset (numeric refinement). TWIN-AGREE exceptions are frozen with reasons in rules/c08.py; a change made identically to both copies is not seen by it."),
+)
+
 NOT_APPLICABLE = {}
